@@ -89,6 +89,8 @@ def strategy(tier):
             c["elmat"] = draw(st.sampled_from(["normal", "normal", "int", "sym"]))
         elif kind == "stiffness":
             c["E"], c["nu"] = draw(e_mod), draw(nu_s)
+            # complex modulus (structural damping; the repository's eigenvalue tests use e_modulus=1+1j)
+            c["E_phase"] = draw(st.sampled_from([0.0, 0.0, 0.0, 0.4, 1.0]))
             c["plane"] = draw(st.sampled_from(["strain", "stress", "stress", "default"]))
         else:
             c["matprop"] = draw(prop)
@@ -177,9 +179,12 @@ def _check_case(case):
         labels.append(f"elmat:{case['elmat']}")
     elif kind == "stiffness":
         plane = case["plane"]
-        Ke = H.ke_stiffness(g, case["E"], case["nu"], "strain" if plane == "default" else plane)
+        E = case["E"] * (1.0 + 1j * case["E_phase"]) if case.get("E_phase") else case["E"]
+        Ke = H.ke_stiffness(g, 1.0, case["nu"], "strain" if plane == "default" else plane) * E
         cls = pym.AssembleStiffness
-        kwargs.update(e_modulus=case["E"], poisson_ratio=case["nu"])
+        kwargs.update(e_modulus=E, poisson_ratio=case["nu"])
+        if case.get("E_phase"):
+            labels.append("complex_modulus")
         if plane != "default":
             kwargs["plane"] = plane
         labels.append(f"plane:{plane}" if g.dim == 2 else "plane:3d")
@@ -267,7 +272,7 @@ def _check_case(case):
                 if kind == "mass":
                     diag = 0.0
                 else:
-                    diag = float(np.median(dv))
+                    diag = complex(dv[0]) if np.iscomplexobj(dv) else float(np.median(dv))
                     if not np.all(np.isfinite(dv)) or np.max(np.abs(dv - diag)) > tol_abs:
                         bad("bc:diag_default", f"constrained diagonals are not one common value: {dv[:8]}")
             if np.max(np.abs(dv - diag)) > max(tol_abs, TOL * abs(diag)):
@@ -304,6 +309,15 @@ def _physics_stiffness(g, K, x, assemble, bad):
         Kp = assemble(np.abs(x), full=False)
         if Kp is None:
             return
+    if np.iscomplexobj(Kp):
+        # complex modulus E = |E| e^{i phi}: K / E is the real stiffness matrix (exactly: the element matrix is linear in E)
+        ph = Kp[np.unravel_index(np.argmax(np.abs(Kp)), Kp.shape)]
+        Kp = Kp / (ph / abs(ph))
+        if float(np.max(np.abs(Kp.imag))) > TOL * nk:
+            bad("physics:stiffness:complex_modulus", f"K is not a complex multiple of a real matrix: max |Im(K/phase)| = "
+                                                     f"{np.max(np.abs(Kp.imag)):.3e}, max|K| = {nk:.3e}")
+            return
+        Kp = Kp.real * np.sign(np.trace(Kp.real) or 1.0)
     w = np.linalg.eigvalsh((Kp + Kp.T) / 2)
     if w[0] < -1e-10 * max(abs(w[-1]), abs(w[0])):
         bad("physics:stiffness:psd", f"lambda_min = {w[0]:.3e}, lambda_max = {w[-1]:.3e} for x >= 0")
